@@ -128,6 +128,33 @@ class SymCtx(BaseCtx):
         ab = [S.sym_abs(x) for x in series]
         return S.sym_and(S.sym_and(*[p >= x for x in ab]), S.sym_or(*[p == x for x in ab]))
 
+    def poly_small(self, expr, tol):
+        """claim |expr| <= tol for a polynomial over BOUNDED input variables: sufficient interval rule
+        sum_m |c_m| * prod bound^e <= tol; if the rule fails the formula goes to the solver."""
+        from vf.engine import scalars as S
+        if isinstance(expr, S.SC):
+            return S.sym_and(self.poly_small(expr.re, tol), self.poly_small(expr.im, tol))
+        if not isinstance(expr, S.SR):
+            return abs(expr) <= tol
+        formula = S.sym_and(expr <= tol, expr >= -tol)
+        if expr.q is not None:
+            return formula
+        bounds = {}
+        for name, (v, lo, hi) in self.inputs.items():
+            (m, c), = v.p.items()
+            if lo is None or hi is None:
+                continue
+            bounds[m[0][0]] = max(abs(float(lo)), abs(float(hi)))
+        tot = 0.0
+        for m, c in expr.p.items():
+            t = abs(float(c))
+            for a, e in m:
+                if a not in bounds:
+                    return formula
+                t *= bounds[a] ** e
+            tot += t
+        return True if tot <= tol else formula
+
     def abs_lin_le(self, expr, weights, arr, force_solver=False):
         """claim |expr| <= sum_k weights[k]*|arr[k]| for a linear form expr over the input variables arr[k].
         Decided by the complete rule for this fragment (|c_k| <= w_k for every k and no other term: necessity by
@@ -196,6 +223,9 @@ class ConcCtx(BaseCtx):
         m = max(abs(float(x)) for x in series)
         s = max(m, abs(float(p))) if scale is None else abs(scale)
         return bool(abs(float(p) - m) <= 1e-9 * s + 1e-300)
+
+    def poly_small(self, expr, tol):
+        return bool(abs(expr) <= tol * (1 + 1e-9) + 1e-300)
 
     def abs_lin_le(self, expr, weights, arr, force_solver=False):
         rhs = sum(float(w) * abs(float(x)) for w, x in zip(weights, arr))
